@@ -4,6 +4,7 @@ from . import _codec, _wire
 
 def run(ctx):
     classes, n_schema, gen = _codec.setup(ctx)
+    gen.null_arrays = True       # the null form of arrays is part of the wire domain
     per_class = 2 if ctx["tier"] == "quick" else 30
     cases = _wire.wire_cases(ctx, classes, n_schema, gen, per_class, p_send=0.5, p_unknown=0.6)
     failing, errors = _wire.run_coq(ctx, "C03", cases)
